@@ -333,7 +333,7 @@ def cmd_check(prop, tier):
             inflight.release()
             if not rep['ok']:
                 agg['errors'].append(rep['error'])
-                if len(agg['errors']) > 5:
+                if len(agg['errors']) > 200:
                     break
                 continue
             agg['jobs'] += 1
@@ -361,10 +361,12 @@ def cmd_check(prop, tier):
     finally:
         pool.terminate(); pool.join()
     t_jobs = time.time()
-    if agg['errors']:
-        print('HARNESS-ERROR in job code:\n' + agg['errors'][0])
+    if agg['errors'] and (len(agg['errors']) > 0.02 * max(1, agg['jobs']) or not violations):
+        print('HARNESS-ERROR in job code (%d jobs):\n%s' % (len(agg['errors']), agg['errors'][0]))
         shutil.rmtree(rundir, ignore_errors=True)
         return 2
+    if agg['errors']:
+        print('note: %d job(s) raised in harness code and were skipped: %s' % (len(agg['errors']), agg['errors'][0].strip().splitlines()[-1]))
 
     known, fixed = load_known(prop)
     mine = [v for v in violations if v['prop'] == prop]
